@@ -36,6 +36,18 @@ class Monitor(Observer):
         self.ctx.count("index-dates-checked", n)
         for key, msg in M.index_check(bt, root, n, bt.core.PAR):
             self.ctx.violation("C03/" + key, msg, {"spec": spec, "mode": "history"})
+        # the flows the recurrence is evaluated with are the flows the driver injected into the root - nothing the engine moves
+        # around by itself (carry swept from securities, capital passed between parent and child) is a flow of the root
+        if not any("err" in s for s in steps):
+            user = M.user_log_from_ops(spec, steps)
+            rec = [float(x) for x in root._all_flows.values]
+            for k in range(min(n, len(rec))):
+                w = user.get((spec["tree"]["name"], k), (0.0, 0.0))[0]
+                self.ctx.count("history-flow-rows-checked")
+                if abs(rec[k] - w) > 1e-9 * max(1.0, abs(rec[k]), abs(w)):
+                    self.ctx.violation("C03/flows-row", "date#%d: root's recorded flows %r, injected as flows on that date %r" % (k, rec[k], w),
+                                       {"spec": spec, "mode": "history"})
+                    break
 
 
 def check_program(ctx, bt, spec, b, log):
@@ -151,6 +163,10 @@ def run_scale_twin(ctx, bt, spec):
 
 def run(ctx, bt):
     run_engine_protocol(ctx, bt, ctx.scale(100, 1200), [Monitor(ctx)], FOOT_FIELDS, None, corr_name="step[C03]")
+    # coupon income and holding costs under a market-value root: swept carry is performance, not a flow
+    from .. import gen_engine as _G
+    run_engine_protocol(ctx, bt, ctx.scale(25, 400), [Monitor(ctx)], FOOT_FIELDS, None, spec_kwargs={"fi_tree": False},
+                        spec_mutator=_G.carry_tree, corr_name="step[C03]:carry-under-market-value-root")
     run_programs(ctx, bt, ctx.scale(70, 1500), check_program)
     cash_only(ctx, bt, ctx.scale(15, 300))
     scale_twins(ctx, bt, ctx.scale(25, 500))
